@@ -42,7 +42,17 @@ func DecodeCase(s string, c any) error {
 
 // ChildCase returns the case handed to this process by RunChild ("" when this
 // process is not a child).
-func ChildCase() string { return os.Getenv("VERIF_CHILD_CASE") }
+func ChildCase() string {
+	if f := os.Getenv("VERIF_CHILD_CASE_FILE"); f != "" {
+		b, err := os.ReadFile(f)
+		if err != nil {
+			fmt.Println("cannot read the case file:", err)
+			os.Exit(4)
+		}
+		return string(b)
+	}
+	return os.Getenv("VERIF_CHILD_CASE")
+}
 
 // ChildOK is called by the child when everything held.
 func ChildOK(stats map[string]float64) {
@@ -80,16 +90,24 @@ func topMuxFrame(block string) string {
 func RunChild(childTest, encoded string, gomaxprocs int, timeout time.Duration) ChildResult {
 	ctx, cancel := context.WithTimeout(context.Background(), timeout)
 	defer cancel()
+	// the case travels in a file: a long program does not fit into an environment variable
+	cf, err := os.CreateTemp("", "verif-case-*")
+	if err != nil {
+		return ChildResult{Kind: "other", Detail: err.Error()}
+	}
+	cf.WriteString(encoded)
+	cf.Close()
+	defer os.Remove(cf.Name())
 	cmd := exec.CommandContext(ctx, os.Args[0], "-test.run", "^"+childTest+"$", "-test.timeout", "0")
 	cmd.Env = append(os.Environ(),
-		"VERIF_CHILD_CASE="+encoded,
+		"VERIF_CHILD_CASE_FILE="+cf.Name(),
 		"GORACE=halt_on_error=1 exitcode=66",
 		fmt.Sprintf("GOMAXPROCS=%d", gomaxprocs),
 		"VERIF_REPLAY=", "VERIF_STATS=", "VERIF_REPLAY_OUT=")
 	var out bytes.Buffer
 	cmd.Stdout = &out
 	cmd.Stderr = &out
-	err := cmd.Run()
+	err = cmd.Run()
 	res := ChildResult{Detail: out.String(), Stats: map[string]float64{}}
 	if ctx.Err() != nil {
 		res.Kind = "timeout"
